@@ -63,6 +63,9 @@ func runShard(id string, thorough bool, shard, n int) *shardResult {
 		if st.MaxPoints > res.MaxPoints {
 			res.MaxPoints = st.MaxPoints
 		}
+		if st.MaxShared > 0 {
+			res.Extra["scenarios_where_threads_touched_a_common_package_level_location"]++
+		}
 		if st.Finding != nil {
 			// replay the schedule twice: the same schedule must fail every time
 			_, f1 := runOnce(sc, st.FindingSch, nil)
@@ -139,7 +142,14 @@ func replaySched(path string) int {
 		fmt.Fprintln(os.Stderr, err)
 		return 2
 	}
-	id := v.Replay["check"].(string)
+	if op, _ := v.Replay["op"].(string); op == "globals" {
+		return replayGlobals(path, &v)
+	}
+	id, _ := v.Replay["check"].(string)
+	if id == "" {
+		fmt.Fprintln(os.Stderr, "replay: this record has no schedule (", v.Kind, ")")
+		return 2
+	}
 	th, _ := v.Replay["thorough"].(bool)
 	p := planFor(id, th)
 	name := v.Replay["scenario"].(string)
